@@ -36,6 +36,8 @@ pub struct Consts {
     pub chunk_size_line_limit: usize,
     pub max_buffer_len: usize,
     pub connect_body_cap: usize,
+    pub trailer_line_limit: usize,
+    pub max_trailer_lines: usize,
 }
 
 pub fn consts() -> Consts {
@@ -55,6 +57,8 @@ pub fn consts() -> Consts {
         chunk_size_line_limit: get("chunkSizeLineLimit", 128),
         max_buffer_len: get("maxBufferLen", 65536),
         connect_body_cap: get("connectBodyCap", 10240),
+        trailer_line_limit: get("trailerLineLimit", 16384),
+        max_trailer_lines: get("maxTrailerLines", 100),
     }
 }
 
